@@ -35,7 +35,9 @@ CLAIMS = {
              "in determineNextArg), the key handed on is exactly the text in front of that '=' and the value starts at the "
              "character right behind it (Engine C over operator++ from every case of the cursor invariant, for every "
              "word); the pairing of a key with the following word or the glued rest of its word is decided by an exhaustive "
-             "table over value mode x what follows (Engine B, shared with C02-R12). The full equivalence of all command-line spellings (tokenisation by the "
+             "table over value mode x what follows (Engine B, shared with C02-R12); the tokeniser's decision when the rest of "
+             "a word is a value is evaluated for every combination of its inputs (after '--key=' always, a requested "
+             "value only inside a word); a stored value is also reported as given (hasValue). The full equivalence of all command-line spellings (tokenisation by the "
              "ArgListIterator state machine) is a relation over an exponential input space and is NOT decided.",
         note="trusts clang AST/CFG, boost::lexical_cast; spelling equivalence not covered",
         technique="static analysis: who-may-write effect facts, def-use of stores, who-may-call"),
@@ -79,7 +81,8 @@ CLAIMS = {
              "max_size guard); AST rules decide new[]/delete[]/unique_ptr form agreement and that every pointer stored into "
              "the delete[]-released argv storage comes from new[]; a call-graph rule shows "
              "that only std::exception-derived types are thrown from the evaluation entry points, no re-throw "
-             "outside a handler, no throw in noexcept functions (positive control analysed on every run). The cursor of "
+             "outside a handler, no throw in noexcept functions (positive control analysed on every run); callables that outlive their creating function (handed to a "
+             "new-expression, returned, stored in a member) capture no local or by-value parameter by reference. The cursor of "
              "detail::ArgListIterator is decided by an inductive four-case invariant relating word index and "
              "character position to argc and the symbolic per-word lengths (constructor establishes it, operator++ "
              "preserves it from every case, nested step by assume-guarantee), with a bounds obligation on every "
